@@ -220,7 +220,7 @@ def answersOwn : List Op → List Res → Bool
   | _, _ => false
 
 /-- number of times the command is written (= executed by the leader) for a plan -/
-def sends (op : Op) (pl : List Bool) : Nat := if op.slow then pl.length else min 1 pl.length
+def sends (op : Op) (pl : List Bool) : Nat := if fails op then pl.length else min 1 pl.length
 
 theorem clean_putBack_nil (rest : List (List Nat)) (h : ∀ x ∈ rest, x = []) :
     ∀ x ∈ rest ++ [[]], x = [] := by
@@ -254,13 +254,13 @@ theorem runAttempts_clean (op : Op) (pl : List Bool) : ∀ st : PState, Clean st
     simp only at hc1 hc2
     subst hc1
     simp only [attempt]
-    cases hs : op.slow
+    cases hs : fails op
     · -- answered in time
       simp only [Bool.false_eq_true, if_false, putBack, sends, hs, List.length_cons]
       refine ⟨by simp, clean_putBack_nil _ hc2, ?_⟩
       have : min 1 (more.length + 1) = 1 := by omega
       simp [this]
-    · simp only [if_true, Bool.false_eq_true, if_false, putBack]
+    · simp only [if_true, Bool.false_and, Bool.false_eq_true, if_false, putBack]
       cases hm : more with
       | nil =>
         simp only [List.isEmpty_nil, if_true, sends, hs, List.length_cons, List.length_nil]
@@ -292,8 +292,8 @@ theorem responses_belong_to_requests (resend : Bool) (ops : List Op) :
 /-- why discarding matters: if a timed-out connection went back to the pool, the next
 request would be handed the previous request's answer -/
 theorem keep_on_timeout_witness :
-    (runOps true false {} [⟨1, true, false, 0⟩, ⟨2, false, false, 0⟩, ⟨3, false, false, 0⟩]).1 = [.timeout, .ok 1, .ok 2] ∧
-    (runOps true false {} [⟨1, true, true, 0⟩, ⟨2, false, false, 0⟩]).1 = [.timeout, .ok 1] := by decide
+    (runOps true false {} [⟨1, true, false, 0, false⟩, ⟨2, false, false, 0, false⟩, ⟨3, false, false, 0, false⟩]).1 = [.timeout, .ok 1, .ok 2] ∧
+    (runOps true false {} [⟨1, true, true, 0, false⟩, ⟨2, false, false, 0, false⟩]).1 = [.timeout, .ok 1] := by decide
 
 /-- The resend policy of the code, read off the regenerated retry loop: a failed
 attempt with `retries <= 0` is followed by another one UNLESS the loop returns first
@@ -318,9 +318,10 @@ def executed_once_full : Prop :=
     (runOps false false st ops).2.executed = st.executed ++ ops.map (·.tag)
 
 /-- ∀ sequences of forwarded requests in which no caller asked for retries (the HTTP
-API's default), answered in time or not: the leader executes each request exactly
+API's default) and no connection breaks between the leader receiving a command and
+answering it, answered in time or not: the leader executes each request exactly
 once, in the order forwarded. -/
-theorem executed_once_partial (ops : List Op) (hr : ∀ op ∈ ops, op.retries = 0) :
+theorem executed_once_partial (ops : List Op) (hr : ∀ op ∈ ops, op.retries = 0 ∧ op.reset = false) :
     ∀ st : PState, Clean st →
       (runOps false false st ops).2.executed = st.executed ++ ops.map (·.tag) := by
   induction ops with
@@ -333,11 +334,11 @@ theorem executed_once_partial (ops : List Op) (hr : ∀ op ∈ ops, op.retries =
     have hone : sends op (plan false op) = 1 := by
       have := hr op (by simp)
       unfold sends plan
-      cases op.broadcast <;> cases op.slow <;> simp [this]
+      cases op.broadcast <;> cases fails op <;> simp [this.1, this.2]
     simp [hone]
 
 /-- the same, for the policy the regenerated source actually has -/
-theorem executed_once_by_the_code (ops : List Op) (hr : ∀ op ∈ ops, op.retries = 0) (st : PState)
+theorem executed_once_by_the_code (ops : List Op) (hr : ∀ op ∈ ops, op.retries = 0 ∧ op.reset = false) (st : PState)
     (h : Clean st) :
     (runOps false codeResendAfterTimeout st ops).2.executed = st.executed ++ ops.map (·.tag) ∧
     answersOwn ops (runOps false codeResendAfterTimeout st ops).1 = true := by
@@ -347,14 +348,25 @@ theorem executed_once_by_the_code (ops : List Op) (hr : ∀ op ∈ ops, op.retri
 /-- witness: one request with `retries = 1` whose answer is late is executed twice -/
 theorem executed_once_witness : ¬ executed_once_full := by
   intro h
-  have := h [⟨1, true, false, 1⟩] {} (by intro c hc; simp at hc)
+  have := h [⟨1, true, false, 1, false⟩] {} (by intro c hc; simp at hc)
+  revert this
+  decide
+
+/-- witness (not repaired, recorded as known): with `retries = 0`, a connection that
+breaks after the leader received the command and before its answer is not a deadline
+error, so the forced-new attempt re-sends the command and the leader executes it twice -/
+theorem executed_once_reset_witness :
+    (runOps false false {} [⟨1, false, false, 0, true⟩]).2.executed = [1, 1] ∧ ¬ executed_once_full := by
+  refine ⟨by decide, ?_⟩
+  intro h
+  have := h [⟨1, false, false, 0, true⟩] {} (by intro c hc; simp at hc)
   revert this
   decide
 
 /-- the behaviour before the `fix:` commit: even with `retries = 0` a request whose
 answer was late was sent again on a new connection and executed twice -/
 theorem resend_after_timeout_witness :
-    (runOps false true {} [⟨1, true, false, 0⟩]).2.executed = [1, 1] := by decide
+    (runOps false true {} [⟨1, true, false, 0, false⟩]).2.executed = [1, 1] := by decide
 
 /-! ### concurrent requests through one client -/
 
@@ -388,10 +400,10 @@ theorem cstep_inv (st : CState) (h : CInv st) (ev : CEv) : CInv (cstep false st 
       subst hc
       simp only [attempt]
       refine ⟨?_, ?_, ?_⟩
-      · cases hs : op.slow
-        · simp only [Bool.false_eq_true, if_false, putBack]
+      · cases hs : fails op
+        · simp only [hs, Bool.false_eq_true, if_false, putBack]
           exact clean_putBack_nil _ hp
-        · simp only [if_true, Bool.false_eq_true, if_false, putBack]
+        · simp only [hs, if_true, Bool.false_and, Bool.false_eq_true, if_false, putBack]
           exact hp
       · intro x hx
         exact hi x (List.mem_filter.1 hx).1
@@ -400,7 +412,7 @@ theorem cstep_inv (st : CState) (h : CInv st) (ev : CEv) : CInv (cstep false st 
         rcases hr' with hr' | hr'
         · exact hr r hr'
         · rw [hr']
-          cases hs : op.slow <;> simp [htag]
+          cases hs : fails op <;> simp [htag]
 
 /-- ∀ interleavings of `begin` and `finish` events of any number of concurrent
 requests (any of which may time out) through one client, starting with nothing
@@ -431,13 +443,13 @@ theorem concurrent_answers_belong_and_execute_once (evs : List CEv) :
 
 /-- non-vacuity: two requests overlap, the first times out, a third reuses the pool -/
 example :
-    (crun false {} [.begin ⟨1, true, false, 0⟩, .begin ⟨2, false, false, 0⟩, .finish 2, .finish 1,
-                    .begin ⟨3, false, false, 0⟩, .finish 3]).results = [(2, .ok 2), (1, .timeout), (3, .ok 3)] := by
+    (crun false {} [.begin ⟨1, true, false, 0, false⟩, .begin ⟨2, false, false, 0, false⟩, .finish 2, .finish 1,
+                    .begin ⟨3, false, false, 0, false⟩, .finish 3]).results = [(2, .ok 2), (1, .timeout), (3, .ok 3)] := by
   decide
 
 /-- with the keep-on-timeout policy the same interleaving hands request 3 another answer -/
 example :
-    (crun true {} [.begin ⟨1, true, false, 0⟩, .finish 1, .begin ⟨3, false, false, 0⟩, .finish 3]).results
+    (crun true {} [.begin ⟨1, true, false, 0, false⟩, .finish 1, .begin ⟨3, false, false, 0, false⟩, .finish 3]).results
       = [(1, .timeout), (3, .ok 1)] := by decide
 
 end Pool
